@@ -212,6 +212,7 @@ def function_inputs(target, seed=0, n=400):
         tails = ['', ':maj', ':min', ':7', ':maj7', ':min7', ':sus4', ':dim', ':aug', ':5', ':1', ':maj/3', ':min/b3', ':maj/2', ':7/b7',
                  ':maj(b6)', ':maj(#5)', ':maj(9)', ':min(*b3)', ':maj6', ':hdim7', ':maj(*5)', ':maj/5', ':(3)', ':maj7/7']
         labs = ['N', 'X'] + [r + t for r in roots[:2] for t in tails] + [r + t for r in roots[2:] for t in tails[:6]]
+        labs += [r + t for r in ('C#', 'Gb', 'B#', 'Cb', 'B') for t in tails[:4]]          # the same pitch classes under other spellings
         for a in labs:
             yield dict(reference_labels=[a], estimated_labels=[a])
         for _ in range(n):
